@@ -45,7 +45,7 @@ def lf_str(a):
 
 
 class V:
-    __slots__ = ("k", "u", "s", "kk", "sh", "wild", "cval", "count_of", "index_of", "elem", "axis", "obj", "tup", "note", "origin", "part", "mconst", "lconst", "dconst", "naive_exp")
+    __slots__ = ("k", "u", "s", "kk", "sh", "wild", "cval", "count_of", "index_of", "elem", "axis", "obj", "tup", "note", "origin", "part", "mconst", "lconst", "dconst", "naive_exp", "sw")
 
     def __init__(self, k="unk", u=ZERO, s=0, sh=None, wild=False, cval=None, count_of=None, index_of=None, elem=None, axis=None, obj=None, tup=None, note="", kk=0, origin=None):
         self.k, self.u, self.s, self.sh, self.wild, self.cval = k, u, Fr(s), sh, wild, cval
@@ -58,11 +58,15 @@ class V:
         self.lconst = 0.0   # log value  = log(dimensioned part) + lconst (per element); None = unknown
         self.dconst = 0.0   # log value  = ... + dconst * d (d = feature count); None = unknown
         self.naive_exp = False  # exp() of an un-normalised log-density (a dimensioned linear density)
+        # translation weight (TRANSL): how the value moves when data and centroids are shifted by a common offset b:
+        # 0 = unchanged by construction, 1 = moves by b, "N" = depends on b unless terms cancel numerically, None = not tracked
+        self.sw = None
 
     def copy(self, **kw):
         v = V(self.k, self.u, self.s, self.sh, self.wild, self.cval, self.count_of, self.index_of, self.elem, self.axis, self.obj, self.tup, self.note, self.kk, self.origin)
         v.part = self.part
         v.mconst, v.lconst, v.dconst, v.naive_exp = self.mconst, self.lconst, self.dconst, self.naive_exp
+        v.sw = self.sw
         for a, b in kw.items():
             setattr(v, a, b if a not in ("s", "kk") else Fr(b))
         return v
@@ -93,7 +97,7 @@ def fmt(v):
         return f"list[{v.axis}] of {fmt(v.elem)}"
     if v.k == "tuple":
         return "(" + ", ".join(fmt(x) for x in v.tup) + ")"
-    if v.k in ("none", "bool", "str", "func", "set", "range"):
+    if v.k in ("none", "bool", "str", "func", "set", "range", "blocks"):
         return v.k
     if v.k == "dict":
         return f"dict of {fmt(v.elem)}"
@@ -112,6 +116,38 @@ def fmt(v):
 
 UNK = V("unk")
 BLOCK_AXES = ("B", "?1")
+
+
+def _sw(v):
+    """translation weight of an operand: polymorphic constants do not move"""
+    if v.sw is not None:
+        return v.sw
+    if v.wild or v.count_of or v.index_of:
+        return 0
+    return None
+
+
+def shift_binop(op, a, b):
+    x, y = _sw(a), _sw(b)
+    if x is None and y is None:
+        return None
+    if x is None or y is None:
+        # one operand untracked: only a constant factor/offset keeps the information
+        return None
+    if isinstance(op, (ast.Add, ast.Sub)):
+        if x == "N" or y == "N":
+            return "N"
+        w = x + y if isinstance(op, ast.Add) else x - y
+        return w if w in (0, 1) else "N"
+    if isinstance(op, (ast.Mult, ast.MatMult, ast.Div, ast.FloorDiv)):
+        if x == 0 and y == 0:
+            return 0
+        if isinstance(op, ast.Mult) and ((a.wild and a.cval == 1) or (b.wild and b.cval == 1)):
+            return y if a.wild else x
+        return "N"  # a product involving a quantity that moves with the offset depends on the offset
+    if isinstance(op, ast.Pow):
+        return 0 if x == 0 else "N"
+    return None
 
 
 def mark_part(v, flag=True):
@@ -185,6 +221,7 @@ def parse_type(t):
     kk = Fr(0)
     w = False
     dconst = 0.0
+    sw = None
     for tok in t.split():
         if tok == "LOG":
             k = "log"
@@ -192,6 +229,8 @@ def parse_type(t):
             w = True
         elif tok == "1":
             pass
+        elif tok in ("inv", "eqv"):
+            sw = 0 if tok == "inv" else 1
         elif tok == "c2pi":
             dconst = 1.8378770664093453  # log(2*pi) per feature
         elif tok == "-halfc2pi":
@@ -212,6 +251,7 @@ def parse_type(t):
         k = "num"  # the logarithm of a pure number is a pure number
     v = V(k, u, s, sh, wild=w, kk=kk)
     v.dconst = dconst
+    v.sw = sw
     return v
 
 
@@ -675,6 +715,10 @@ class Interp:
             elif decl.sh is not None and v.sh is not None and len(decl.sh) != len(v.sh) and not any(x.startswith("?") for x in v.sh):
                 self.violation(rule + "-shape", node, f"{label} is declared with axes {list(decl.sh)} but the value has axes {list(v.sh)}")
                 return
+            if decl.sw == 0 and v.sw == "N":
+                self.violation("DIM.TRANSL", node, f"{label} must not depend on a common translation of data and centroids, but it is assembled from terms that each grow with the offset (e.g. ||x||^2 - 2 x.m + ||m||^2) and only cancel numerically: far from the origin the rounding error of the large terms exceeds the true value (wrong nearest centroid, negative 'squared distances'); compute it from differences (x - m)")
+            elif decl.sw == 0 and v.sw == 0:
+                self.ok("DIM.TRANSL", node, f"{label}: translation-invariant by construction")
             if decl.k == "log" and decl.dconst != 0.0:
                 import math
                 if v.dconst is None or v.lconst is None:
@@ -773,6 +817,11 @@ class Interp:
                 return V("tuple", tup=tp, note="shape")
             if e.attr in ("ndim", "size", "nbytes", "dtype"):
                 return wild(sh=())
+            if e.attr == "blocks":
+                return V("blocks", origin=base)
+            if e.attr == "numblocks":
+                n = len(base.sh) if base.sh is not None else 2
+                return V("tuple", tup=tuple(V("num", count_of="B", sh=(), wild=True) for _ in range(n)), note="numblocks")
             return V("func", note="arraymethod:" + e.attr, origin=base)
         if base.k == "list":
             return V("func", note="listmethod:" + e.attr, origin=base)
@@ -903,6 +952,12 @@ class Interp:
         r = self._binop(op, a, b, node, aug)
         if (a.part or b.part) and r is not None and not r.part:
             r = mark_part(r)
+        if r is not None and r.is_numlike and a.is_numlike and b.is_numlike:
+            sw = shift_binop(op, a, b)
+            if sw is not None or r.sw is not None:
+                if r is a or r is b:
+                    r = r.copy()
+                r.sw = sw
         return r
 
     def _binop(self, op, a, b, node, aug=False):
@@ -1027,6 +1082,8 @@ class Interp:
             r.dconst = None if (a.dconst is None or b.dconst is None) else a.dconst + sign * b.dconst
             if r.u == ZERO:
                 r.k = "num"
+                if sign == -1 and a.sh is not None and b.sh is not None and "N" in a.sh and "N" not in b.sh and a.u != ZERO:
+                    r.note = "shared-shift"  # log-densities of many samples minus one log-density common to all of them
             return r
         l, o = (a, b) if a.k == "log" else (b, a)
         if o.wild or (o.u == ZERO and (o.s == 0 or not self.c.track_s)):
@@ -1093,6 +1150,8 @@ class Interp:
             return mark_part(el) if base.axis == "B" else el
         if base.k == "dict":
             return base.elem if base.elem is not None else unk("element of empty dict")
+        if base.k == "blocks" and base.origin is not None:
+            return mark_part(base.origin)  # one block of a Dask array
         if base.k == "func" and base.note and base.note.endswith("hdf5"):
             return unk("hdf5")
         if not base.is_numlike:
@@ -1121,7 +1180,7 @@ class Interp:
                 pos += 1
                 continue
             iv = self.ev(i, env)
-            if iv.k == "bool" or (iv.is_numlike and iv.sh and len(iv.sh) >= 1 and not iv.index_of and iv.sh != ()):
+            if iv.k == "bool" or (iv.is_numlike and iv.sh and len(iv.sh) >= 1 and iv.sh != ()):
                 # boolean mask / fancy index along this axis: the axis survives (as a subset)
                 out.append(sh[pos])
                 pos += 1
